@@ -100,7 +100,7 @@ NURIKABE_COMBINATOR = Grid(OneOf(Dict([-1], ["."]), Spaces(0, "g"), HexInt()))
 
 def serialize_nurikabe(problem):
     height = len(problem)
-    width = len(problem[0])
+    width = len(problem[0]) if height > 0 else 0
     return serialize_problem_as_url(NURIKABE_COMBINATOR, "nurikabe", height, width, problem)
 
 
